@@ -167,7 +167,7 @@ struct PCase { bytes: Vec<u8>, fmt: &'static str, project: VProject, desc: serde
 fn build(ch: &mut Chooser, fmt: &'static str, thorough: bool) -> PCase {
     let cp: u16 = if thorough && ch.flag("codepage-932") { 932 } else { 1252 };
     let nmod = [1usize, 0, 2, 3][ch.choose("module-count", 4)];
-    let names: Vec<&str> = if cp == 932 { vec!["Module1", "\u{30E2}\u{30B8}\u{30E5}\u{30FC}\u{30EB}", "Sheet1"] } else { vec!["Module1", "M\u{f3}dulo 2", "ThisWorkbook"] };
+    let names: Vec<&str> = if cp == 932 { vec!["Module1", "\u{30E2}\u{30B8}\u{30E5}\u{30FC}\u{30EB}", "Sheet1"] } else if ch.flag("module-names-collide-with-project-streams-up-to-case") { vec!["Project", "Dir", "vba"] } else { vec!["Module1", "M\u{f3}dulo 2", "ThisWorkbook"] };
     let mut modules = vec![];
     for i in 0..nmod {
         let len = [40usize, 0, 5000, 4096, 9000][ch.choose("module-source-length", 5)];
